@@ -956,6 +956,14 @@ func (ex *Exec) forgetPath(st *State, fr *Frame, site string) {
 			}
 		}
 	}
+	// SSA registers are immutable and keep their terms (with the path forgotten they denote
+	// arbitrary values), except phi registers: their term depends on the path taken, so the
+	// first arriving path's choice must not be kept
+	for v, sv := range fr.vals {
+		if _, isPhi := v.(*ssa.Phi); isPhi && sv.T != nil {
+			fr.vals[v] = SVal{Val: Val{T: fc.d.Fresh("cutphi", sv.T.Sort), Typ: sv.Typ}}
+		}
+	}
 	keep := map[string]bool{}
 	for a, n := range stores {
 		if n == 1 && paramOnly[a] {
